@@ -2,7 +2,7 @@
 
 use super::{Error, Lint, Note};
 use crate::ast::Ast;
-use crate::grammar::{attributes, Attributable, Entity};
+use crate::grammar::{attributes, Attributable, Contained, Entities, Entity, NamedSymbol, Parameter, Symbol};
 use crate::slice_file::{SliceFile, Span};
 use crate::slice_options::SliceOptions;
 
@@ -184,6 +184,20 @@ impl Diagnostics {
             allowed.any(|allow| is_lint_allowed_by(allow.allowed_lints.iter(), lint))
         }
 
+        // Helper function that returns the parameter or return member which a lint was reported in, given one that was
+        // looked up by scope. A parameter and a return member of the same operation can have the same identifier (and
+        // a parameter can be named like the placeholder of an unnamed return type), so a scope can name more than one.
+        fn get_member_reported_in<'b>(member: &'b Parameter, span: &Span) -> Option<&'b Parameter> {
+            let operation = member.parent();
+            let mut members = operation.parameters().into_iter().chain(operation.return_members());
+            members.find(|m| {
+                m.identifier() == member.identifier()
+                    && m.span().file == span.file
+                    && span.start.is_within(m.span())
+                    && span.end.is_within(m.span())
+            })
+        }
+
         for diagnostic in &mut self.0 {
             // If this diagnostic is a lint, update its diagnostic level. Errors always have a level of `Error`.
             if let DiagnosticKind::Lint(lint) = &diagnostic.kind {
@@ -202,7 +216,11 @@ impl Diagnostics {
 
                 // If the diagnostic has a scope, check if it's affected by an `allow` attribute in that scope.
                 if let Some(scope) = diagnostic.scope() {
-                    if let Ok(entity) = ast.find_element::<dyn Entity>(scope) {
+                    if let Ok(mut entity) = ast.find_element::<dyn Entity>(scope) {
+                        if let Entities::Parameter(member) = entity.concrete_entity() {
+                            let reported_in = diagnostic.span().and_then(|span| get_member_reported_in(member, span));
+                            entity = reported_in.unwrap_or(member);
+                        }
                         if is_lint_allowed_by_attributes(entity, lint) {
                             diagnostic.level = DiagnosticLevel::Allowed;
                         }
